@@ -443,16 +443,44 @@ pub fn run(rep: &mut Report, rng: &mut Rng, thorough: bool) {
             }
             8 => {
                 // BCJ2: four arbitrary streams and an arbitrary declared size
-                let streams: Vec<Vec<u8>> = (0..4).map(|_| { let l = r.range(0, 200) as usize; r.bytes(l) }).collect();
+                let mut streams: Vec<Vec<u8>> = (0..4).map(|_| { let l = r.range(0, 200) as usize; r.bytes(l) }).collect();
+                // half of the cases: a MAIN stream rich in the opcodes the decoder looks for (E8, E9, 0F 8x, also as
+                // its very last bytes) and a range-coder stream with a valid start
+                if r.chance(1, 2) {
+                    let l = streams[0].len();
+                    for p in 0..l {
+                        match r.below(6) {
+                            0 => streams[0][p] = 0xE8,
+                            1 => streams[0][p] = 0xE9,
+                            2 => {
+                                streams[0][p] = 0x0F;
+                                if p + 1 < l {
+                                    streams[0][p + 1] = 0x80 | (r.next() as u8 & 0x0F);
+                                }
+                            }
+                            _ => {}
+                        }
+                    }
+                    if !streams[3].is_empty() {
+                        streams[3][0] = 0;
+                    }
+                }
                 let size = *r.pick(&[0u64, 1, 100, 10000, 1 << 20]);
-                let s2 = streams.clone();
-                let v = run_case(|| guard(|| {
-                    let inputs: Vec<std::io::Cursor<Vec<u8>>> = s2.into_iter().map(std::io::Cursor::new).collect();
-                    let mut rd = BCJ2Reader::new(inputs, size);
-                    read_all_sched(&mut rd, &[4096], (1 << 20) + 16)
-                }));
                 let d = json!({"decoder": "bcj2", "declared_size": size, "streams_hex": streams.iter().map(|s| hex(s)).collect::<Vec<_>>(), "case": i});
-                judge(rep, "bcj2", &v, 0, 800 + (size as usize).min(1 << 20), d.clone());
+                // the same streams read with different caller buffers: the position at which an output window ends
+                // relative to an opcode is part of the input the decoder must be total on
+                for sched in [vec![4096usize], vec![1], vec![2], vec![3, 1], vec![r.range(1, 24) as usize]] {
+                    let s2 = streams.clone();
+                    let v = run_case(|| guard(|| {
+                        let inputs: Vec<std::io::Cursor<Vec<u8>>> = s2.into_iter().map(std::io::Cursor::new).collect();
+                        let mut rd = BCJ2Reader::new(inputs, size);
+                        read_all_sched(&mut rd, &sched, (1 << 20) + 16)
+                    }));
+                    let mut d2 = d.clone();
+                    d2["read_sizes"] = json!(sched);
+                    judge(rep, "bcj2", &v, 0, 800 + (size as usize).min(1 << 20), d2);
+                }
+
                 rep.case(format!("bcj2:s{}", size_class(size as usize)), true, || d);
             }
             9 if i % 20 == 9 => {
